@@ -33,8 +33,11 @@ CONSTANTS Fork,        \* index of the hardfork, numbered like revm's SpecId (FR
           BaseFee, GasPrices,
           SetupPlan,   \* <<>> = free setup; else a sequence of [c |-> contract, kinds |-> families]: step i
                        \* appends one snippet of those families to that contract (exhaustive product)
+          PreCreated,  \* creation keys whose address tokens exist from the start (so that transactions can
+                       \* touch the address a later CREATE will produce), e.g. << <<"create", 193, 1>> >>
           Rejections,  \* TRUE: rejected transactions may be interleaved
-          TxVariety,   \* FALSE: transactions carry no value, no data, no access list
+          TxValues,    \* values a transaction may carry when TxVariety is FALSE
+          TxVariety,   \* FALSE: transactions carry no data, no access list, ... and a value from TxValues
           StepBound    \* safety bound on interpreter steps per transaction
 
 FRONTIER == 0  HOMESTEAD == 2  TANGERINE == 4  SPURIOUS == 5  BYZANTIUM == 6  CONSTANTINOPLE == 7
@@ -814,7 +817,7 @@ SnipsOf(K) ==
 (* ---------------------------------------------------------------- behaviours *)
 W0 == [a \in AddrU |-> IF a \in DOMAIN World0 THEN World0[a] ELSE Blank]
 Init ==
-    m = [ph |-> "setup", nsnip |-> 0, world |-> W0, world0 |-> W0, orig |-> W0, created |-> <<>>,
+    m = [ph |-> "setup", nsnip |-> 0, world |-> W0, world0 |-> W0, orig |-> W0, created |-> PreCreated,
          txs |-> <<>>, res |-> <<>>, tx |-> [to |-> 0, value |-> 0, gas |-> 0, price |-> 0, data |-> <<>>, al |-> <<>>, prio |-> -1, blobs |-> 0, auths |-> <<>>, cb |-> Coinbase, from |-> Sender],
          authref |-> 0,
          accA |-> {}, accS |-> {}, tst |-> [a \in AddrU |-> [k \in Slots |-> 0]], logs |-> <<>>, dest |-> {},
@@ -846,7 +849,7 @@ AuthLists == {<<>>, <<>>, <<>>} \cup
 TxInit == {Ret1, P(2) \o P(1) \o <<85>> \o Ret1, <<254>>}
 AccessLists == {<<>>} \cup (IF Has(BERLIN) THEN {<<[addr |-> c, keys |-> <<0>>]>> : c \in Contracts} ELSE {})
 ChooseTx == m.ph = "tx" /\ Len(m.res) < MaxTx /\
-    \E to \in TxTargets, value \in (IF TxVariety THEN {0, 1} ELSE {0}), gas \in TxGas, price \in GasPrices,
+    \E to \in TxTargets, value \in (IF TxVariety THEN {0, 1} ELSE TxValues), gas \in TxGas, price \in GasPrices,
        al \in (IF TxVariety THEN AccessLists ELSE {<<>>}), prio \in (IF TxVariety /\ Has(LONDON) THEN {-1, 0, 2} ELSE {-1}),
        blobs \in (IF TxVariety /\ Has(CANCUN) THEN {0, 2} ELSE {0}), auths \in (IF TxVariety /\ Has(PRAGUE) THEN AuthLists ELSE {<<>>}),
        cb \in Coinbases :
